@@ -463,16 +463,19 @@ func c14Scenarios(tier string) []Scenario {
 				bound = 2
 			}
 			for h := 0; h < 3; h++ {
+				if n >= 4 && h != 1 {
+					continue // longest sequences: only the handler that outlives later reads
+				}
 				// read error at every position
 				for e := 0; e <= n; e++ {
-					if h > 0 && e != n && !thorough {
+					if (h > 0 && e != n && !thorough) || (n >= 4 && e != 0 && e != n) {
 						continue
 					}
 					add(&ServerScenario{V6: v6, Dgs: seq, EndErrAt: e, CloseAt: -1, Handler: h, Bound: bound}, "read-error")
 				}
 				// Close from another thread at tick 0 (racing the reads) and, spaced, at every position
 				add(&ServerScenario{V6: v6, Dgs: seq, EndErrAt: -1, CloseAt: 0, Handler: h, Bound: bound}, "close-racing")
-				if n <= 2 || thorough {
+				if n <= 2 || (thorough && n <= 3) {
 					for t := int64(0); t <= int64(n); t++ {
 						add(&ServerScenario{V6: v6, Dgs: seq, Spaced: true, EndErrAt: -1, CloseAt: t, Handler: h, Bound: bound}, "close-at")
 					}
